@@ -23,6 +23,7 @@ import (
 	"os"
 	"path/filepath"
 	"reflect"
+	"regexp"
 	"runtime"
 	"sort"
 	"strconv"
@@ -293,9 +294,70 @@ type target struct {
 	t    *hutil.Target
 }
 
+// pmFiles: the files of ONE package (c08/pm), sharing one types.Info / types.Package -- what a caller checks in parallel
+// with a single RunContext
+var pmFiles []*target
+
+func pmSources(scale int) map[string]string {
+	srcs := targetSources(scale)
+	out := map[string]string{}
+	rename := func(src, pkgOld string, fn string, tag string) string {
+		src = strings.Replace(src, "package "+pkgOld, "package pm", 1)
+		return regexp.MustCompile(`\bfunc `+fn+`(\d+)\(`).ReplaceAllString(src, "func "+fn+tag+"_${1}(")
+	}
+	out["a0"] = rename(srcs["pa"], "pa", "f", "a0")
+	out["a1"] = rename(srcs["pa"], "pa", "f", "a1")
+	out["a2"] = rename(srcs["pa"], "pa", "f", "a2")
+	out["b0"] = rename(srcs["pb"], "pb", "g", "b0")
+	out["c0"] = rename(srcs["pc"], "pc", "h", "c0")
+	out["c1"] = rename(srcs["pc"], "pc", "h", "c1")
+	out["d0"] = rename(srcs["pd"], "pd", "k", "d0")
+	out["d1"] = rename(srcs["pd"], "pd", "k", "d1")
+	return out
+}
+
+func checkPM(dir string, scale int, fset *token.FileSet, imp types.Importer) error {
+	srcs := pmSources(scale)
+	var names []string
+	for n := range srcs {
+		names = append(names, n)
+	}
+	sort.Strings(names)
+	var files []*ast.File
+	var paths []string
+	for _, n := range names {
+		path := filepath.Join(dir, "pm", n+".go")
+		if err := os.MkdirAll(filepath.Dir(path), 0o755); err != nil {
+			return err
+		}
+		if err := os.WriteFile(path, []byte(srcs[n]), 0o644); err != nil {
+			return err
+		}
+		f, err := parser.ParseFile(fset, path, []byte(srcs[n]), parser.ParseComments)
+		if err != nil {
+			return err
+		}
+		files = append(files, f)
+		paths = append(paths, path)
+	}
+	info := hutil.NewInfo()
+	conf := types.Config{Importer: imp}
+	pkg, err := conf.Check("c08/pm", fset, files, info)
+	if err != nil {
+		return fmt.Errorf("typecheck pm: %v", err)
+	}
+	for i, n := range names {
+		pmFiles = append(pmFiles, &target{"pm/" + n, &hutil.Target{Fset: fset, File: files[i], Info: info, Pkg: pkg, Src: []byte(srcs[n]), Path: paths[i]}})
+	}
+	return nil
+}
+
 func checkTargets(dir string, scale int) ([]*target, error) {
 	fset := token.NewFileSet()
 	imp := importer.ForCompiler(fset, "source", nil)
+	if err := checkPM(dir, scale, fset, imp); err != nil {
+		return nil, err
+	}
 	srcs := targetSources(scale)
 	var names []string
 	for n := range srcs {
@@ -341,6 +403,76 @@ type runResult struct {
 	Panic   string         `json:"panic,omitempty"`
 }
 
+func mkReport(fset *token.FileSet, data *ruleguard.ReportData) hutil.Report {
+	r := hutil.Report{Message: data.Message, Line: data.RuleInfo.Line}
+	if data.RuleInfo.Group != nil {
+		r.Group = data.RuleInfo.Group.Name
+	}
+	if data.Node == nil {
+		r.NilNode = true
+	} else {
+		r.Pos = fset.Position(data.Node.Pos()).Offset
+		r.End = fset.Position(data.Node.End()).Offset
+	}
+	if data.Suggestion != nil {
+		r.HasSugg = true
+		r.SuggFrom = fset.Position(data.Suggestion.From).Offset
+		r.SuggTo = fset.Position(data.Suggestion.To).Offset
+		r.Sugg = string(data.Suggestion.Replacement)
+	}
+	return r
+}
+
+// sharedGroup: ONE *RunContext (State == nil) handed to concurrent Run calls on different files of one package.
+// Run must treat its context as read-only. The Report callback is the caller's business: it is goroutine-safe and
+// files reports under the file they point into (every file is checked by one goroutine at a time).
+type sharedGroup struct {
+	ctx    *ruleguard.RunContext
+	mu     sync.Mutex
+	byFile map[string][]hutil.Report
+}
+
+func newSharedGroup(t0 *hutil.Target) *sharedGroup {
+	g := &sharedGroup{byFile: map[string][]hutil.Report{}}
+	g.ctx = &ruleguard.RunContext{
+		Pkg:   t0.Pkg,
+		Types: t0.Info,
+		Sizes: types.SizesFor("gc", "amd64"),
+		Fset:  t0.Fset,
+		Report: func(data *ruleguard.ReportData) {
+			r := mkReport(t0.Fset, data)
+			name := ""
+			if data.Node != nil {
+				name = t0.Fset.Position(data.Node.Pos()).Filename
+			}
+			g.mu.Lock()
+			g.byFile[name] = append(g.byFile[name], r)
+			g.mu.Unlock()
+		},
+	}
+	return g
+}
+
+func (g *sharedGroup) run(e *ruleguard.Engine, t *hutil.Target) runResult {
+	var res runResult
+	defer progress.Add(1)
+	func() {
+		defer func() {
+			if r := recover(); r != nil {
+				res.Panic = fmt.Sprint(r)
+			}
+		}()
+		if err := e.Run(g.ctx, t.File); err != nil {
+			res.Panic = "run error: " + err.Error()
+		}
+	}()
+	g.mu.Lock()
+	res.Reports = g.byFile[t.Path]
+	delete(g.byFile, t.Path)
+	g.mu.Unlock()
+	return res
+}
+
 func runOnce(e *ruleguard.Engine, t *hutil.Target, st *ruleguard.RunnerState, yield func()) runResult {
 	var res runResult
 	defer progress.Add(1)
@@ -357,22 +489,7 @@ func runOnce(e *ruleguard.Engine, t *hutil.Target, st *ruleguard.RunnerState, yi
 			Fset:  t.Fset,
 			State: st,
 			Report: func(data *ruleguard.ReportData) {
-				r := hutil.Report{Message: data.Message, Line: data.RuleInfo.Line}
-				if data.RuleInfo.Group != nil {
-					r.Group = data.RuleInfo.Group.Name
-				}
-				if data.Node == nil {
-					r.NilNode = true
-				} else {
-					r.Pos = t.Fset.Position(data.Node.Pos()).Offset
-					r.End = t.Fset.Position(data.Node.End()).Offset
-				}
-				if data.Suggestion != nil {
-					r.HasSugg = true
-					r.SuggFrom = t.Fset.Position(data.Suggestion.From).Offset
-					r.SuggTo = t.Fset.Position(data.Suggestion.To).Offset
-					r.Sugg = string(data.Suggestion.Replacement)
-				}
+				r := mkReport(t.Fset, data)
 				res.Reports = append(res.Reports, r)
 				if yield != nil {
 					yield()
@@ -415,6 +532,7 @@ type roundInfo struct {
 	Millis     int64  `json:"ms"`
 	States     string `json:"states"`
 	Panics     int    `json:"panics"`
+	SharedRuns int    `json:"shared_ctx_runs"`
 }
 
 type lockedEnc struct {
@@ -450,6 +568,9 @@ func explore(enc0 *json.Encoder, targets []*target, sets []int, ns []int, seed i
 			for _, t := range targets {
 				base[t.name] = runOnce(eA, t.t, nil, nil)
 			}
+			for _, t := range pmFiles {
+				base[t.name] = runOnce(eA, t.t, nil, nil)
+			}
 			// the same calls again: reverse order, one reused state (warm engine), and optionally on fresh engines
 			check := func(kind string, e *ruleguard.Engine, st *ruleguard.RunnerState, t *target) {
 				r := runOnce(e, t.t, st, nil)
@@ -465,6 +586,9 @@ func explore(enc0 *json.Encoder, targets []*target, sets []int, ns []int, seed i
 			stA := ruleguard.NewRunnerState(eA)
 			for i := len(targets) - 1; i >= 0; i-- {
 				check("baseline", eA, stA, targets[i])
+			}
+			for i := len(pmFiles) - 1; i >= 0; i-- {
+				check("baseline", eA, stA, pmFiles[i])
 			}
 			if fresh {
 				for _, t := range targets {
@@ -559,6 +683,42 @@ func exploreRound(enc *lockedEnc, e *ruleguard.Engine, rs ruleSet, targets []*ta
 			}
 		}(g)
 	}
+	// the shared-context group: S more goroutines check the files of package c08/pm with ONE RunContext (State nil),
+	// every file owned by one goroutine, three passes each
+	sharedRuns := 0
+	if len(pmFiles) > 0 {
+		grp := newSharedGroup(pmFiles[0].t)
+		S := n
+		if S > len(pmFiles) {
+			S = len(pmFiles)
+		}
+		for j := 0; j < S; j++ {
+			wg.Add(1)
+			go func(j int) {
+				defer wg.Done()
+				<-start
+				for pass := 0; pass < 3; pass++ {
+					for i := j; i < len(pmFiles); i += S {
+						t := pmFiles[i]
+						r := grp.run(e, t.t)
+						ok := reflect.DeepEqual(r, base[t.name])
+						mu.Lock()
+						runs++
+						sharedRuns++
+						reports += len(r.Reports)
+						stateModes["shared-ctx"] = true
+						if r.Panic != "" {
+							panics++
+						}
+						if !ok {
+							mism = append(mism, mismatch{"mismatch", rs.name, n, phase, 1000 + j, t.name, "shared-ctx", seed, base[t.name], r})
+						}
+						mu.Unlock()
+					}
+				}
+			}(j)
+		}
+	}
 	close(start)
 	wg.Wait()
 	k1, _ := ruleguard.VerifTypeCache(e)
@@ -574,7 +734,7 @@ func exploreRound(enc *lockedEnc, e *ruleguard.Engine, rs ruleSet, targets []*ta
 	}
 	sort.Strings(sm)
 	enc.Encode(roundInfo{"round", rs.name, n, phase, seed, runs, len(mism), reports, len(k0), len(k1), len(p0), len(p1),
-		time.Since(t0).Milliseconds(), strings.Join(sm, ","), panics})
+		time.Since(t0).Milliseconds(), strings.Join(sm, ","), panics, sharedRuns})
 }
 
 // ------------------------------------------------------------------------------------------------ findtype scripts
